@@ -6,6 +6,7 @@ preempts at statement granularity inside the socket hub.
 from __future__ import annotations
 
 import gc
+import hashlib
 import itertools
 import json
 from typing import Any, Dict, List, Tuple
@@ -21,7 +22,11 @@ RULE = (
     "message texts include the empty string and repeated texts; plain and callback delivery; 1..2 socket ids; in a third of the "
     "scenarios one endpoint closes a socket part-way and opens it again, possibly with the other delivery mode; an eighth of the scenarios use "
     "broadcast channels: every endpoint broadcasts 0..2 messages, receives what the others broadcast and may then drop its channel) plus a schedule = list of small ints choosing the next thread at every statement of the hub; Hypothesis draws both; "
-    "a late connect with a time limit between 0 and 5 s must succeed when the peer is already open; both tiers enumerate every single-preemption schedule of five fixed scripts and every excursion (another thread runs 1..10 statements, then the interrupted one goes on) of two of them; thorough also enumerates all schedules with <=3 preemptions for small two-endpoint scripts.  Non-trivial = >=1 "
+    "the receiver modifies every StructuredMessage object it was handed (header and payload) after noting its content, a quarter of the messages repeat an earlier message of the same run (equal text and kind) and a fifth of the scenarios send structured messages only; "
+    "callback endpoints are of a class that defines recv_callback itself, inherits it from an intermediate socket class, or gets it from a mixin; "
+    "a send between two endpoints that are both open must not be refused with ConnectionError; a twelfth of the scenarios are peer-returns histories (the peer closes its socket, the survivor meanwhile does nothing / reads `connected` / calls wait() / attempts a send, "
+    "a new peer socket with the same names and id opens (same or other delivery mode) and traffic goes on in both directions; the steps are ordered by tokens on a second socket id); "
+    "a late connect with a time limit between 0 and 5 s must succeed when the peer is already open; both tiers enumerate every single-preemption schedule of five fixed scripts (plus three more: repeated equal structured messages, inherited / mixin callback classes; and every peer-returns history of one size under the sequential schedule) and every excursion (another thread runs 1..10 statements, then the interrupted one goes on) of two of them; thorough also enumerates all schedules with <=3 preemptions for small two-endpoint scripts.  Non-trivial = >=1 "
     "preemption inside a hub method and >=2 messages sent; distinct by (scripts, schedule)"
 )
 ASSUMPTIONS = [
@@ -58,6 +63,8 @@ def st_scenario(draw):
         if not any(sends.values()):
             sends[names[0]] = ["a0"]
         return {"kind": "broadcast", "names": names, "sends": sends, "close": {n: draw(st.booleans()) for n in names}, "schedule": draw(st_schedule())}
+    if draw(st.integers(0, 11)) == 0:
+        return draw(st_peer_returns())
     special = draw(st.integers(0, 9)) <= 1
     if special:
         # one side opens and closes before the other arrives / notices
@@ -70,6 +77,7 @@ def st_scenario(draw):
         for sid in range(draw(st.integers(1, 2))):
             conns.append({"x": x, "y": y, "sid": sid, "mode": {x: draw(st.sampled_from(["plain", "plain", "cb"])), y: draw(st.sampled_from(["plain", "plain", "cb"]))}})
     n_msgs = draw(st.integers(1, 6))
+    all_structured = draw(st.integers(0, 4)) == 0
     plan = []
     sends_per: Dict[str, int] = {}
     for k in range(n_msgs):
@@ -78,18 +86,71 @@ def st_scenario(draw):
         if sends_per.get(src, 0) >= 4:
             continue
         sends_per[src] = sends_per.get(src, 0) + 1
-        plan.append({"src": src, "dst": dst, "sid": c["sid"], "msg": draw(st.sampled_from([f"m{k}", f"m{k}", f"m{k}", "", "dup", f"long{k}-" + "x" * 5000, f"L{k}" + "y" * 70000])), "structured": draw(st.integers(0, 3)) == 0,
+        msg = draw(st.sampled_from([f"m{k}", f"m{k}", f"m{k}", "", "dup", f"long{k}-" + "x" * 5000, f"L{k}" + "y" * 70000]))
+        structured = draw(st.integers(0, 3)) == 0
+        if plan and draw(st.integers(0, 3)) == 0:
+            # the same message once more (equal text, equal kind), on whatever channel this one goes
+            prev = plan[draw(st.integers(0, len(plan) - 1))]
+            msg, structured = prev["msg"], prev["structured"]
+        plan.append({"src": src, "dst": dst, "sid": c["sid"], "msg": msg, "structured": structured or all_structured,
                      "recv": draw(st.sampled_from(["block", "block", "nb-then-block"])), "via": draw(st.sampled_from(["logged", "logged", "silent"])),
                      "timeout": draw(st.sampled_from([None, None, 1e6, 0.05, 0.15, 0.25, 0.35]))})
     extra_nb = draw(st.lists(st.tuples(st.sampled_from(names), st.integers(0, 8)), max_size=2))
     disconnect = {n: draw(st.booleans()) for n in names}
     schedule = draw(st_schedule())
     scn = {"kind": "plan", "names": names, "conns": conns, "plan": plan, "extra_nb": [list(e) for e in extra_nb], "disconnect": disconnect, "schedule": schedule}
+    # the class of an endpoint's callback sockets: recv_callback defined by the class itself, inherited from an intermediate
+    # socket class, or provided by a mixin
+    scn["cbcls"] = {n: draw(st.sampled_from(CB_CLASSES)) for n in names}
     if draw(st.integers(0, 2)) == 0 and plan:
         # one endpoint closes one of its sockets part-way and opens it again (same names and id, possibly another delivery mode)
         c = draw(st.sampled_from(conns))
         scn["reconnect"] = {"who": draw(st.sampled_from([c["x"], c["y"]])), "conn": conns.index(c), "at": draw(st.integers(0, len(plan))), "mode2": draw(st.sampled_from(["plain", "cb"]))}
     return scn
+
+
+_RUN_NO = itertools.count()
+CB_CLASSES = ["own", "inherited", "mixin"]
+GAP_ACTIONS = ["none", "connected", "wait", "send", "send_silent", "send_structured"]
+
+
+@st.composite
+def st_peer_returns(draw):
+    """history: a and b talk on socket 0, b closes it, a does `gap` meanwhile, a new b socket 0 opens, they talk on"""
+    txt = st.sampled_from(["p", "p", "", "dup"])
+    return {"kind": "peer-returns", "names": ["a", "b"],
+            "mode_a": draw(st.sampled_from(["plain", "plain", "cb"])), "mode_b1": draw(st.sampled_from(["plain", "plain", "cb"])), "mode_b2": draw(st.sampled_from(["plain", "plain", "cb"])),
+            "cbcls": {n: draw(st.sampled_from(CB_CLASSES)) for n in ["a", "b"]},
+            "pre": [draw(txt) + f"{i}" * draw(st.integers(0, 1)) for i in range(draw(st.integers(0, 2)))],
+            "gap": draw(st.sampled_from(GAP_ACTIONS)),
+            "post": [[draw(st.sampled_from(["send", "send", "send_silent", "send_structured"])), draw(txt) + f"{i}" * draw(st.integers(0, 1))] for i in range(draw(st.integers(1, 2)))],
+            "back": [draw(txt) + f"{i}" * draw(st.integers(0, 1)) for i in range(draw(st.integers(0, 1)))],
+            "schedule": draw(st_schedule())}
+
+
+def peer_returns_scripts(scn) -> Dict[str, List[Any]]:
+    """socket 0 carries the traffic, socket 1 (plain, never closed) carries the tokens that order the steps of the history, so
+    the history is the same under every schedule"""
+    ma, mb1, mb2 = scn["mode_a"], scn["mode_b1"], scn["mode_b2"]
+    rcv = lambda o, sid: ["recv", o, sid, False, False, None]  # noqa: E731
+    a = [["connect", "b", 0, ma], ["connect", "b", 1, "plain"]] + [["send", "b", 0, t] for t in scn["pre"]] + [["send", "b", 1, "sent-all"], rcv("b", 1)]
+    if scn["gap"] == "connected":
+        a.append(["probe_connected", "b", 0])
+    elif scn["gap"] == "wait":
+        a.append(["wait_lost", "b", 0])
+    elif scn["gap"] != "none":
+        a.append([scn["gap"], "b", 0, "in-the-gap"])
+    a += [["send", "b", 1, "looked"], rcv("b", 1)] + [[how, "b", 0, t] for how, t in scn["post"]]
+    if ma == "plain":
+        a += [rcv("b", 0) for _ in scn["back"]]
+    b = [["connect", "a", 0, mb1], ["connect", "a", 1, "plain"], rcv("a", 1)]
+    if mb1 == "plain":
+        b += [rcv("a", 0) for _ in scn["pre"]]
+    b += [["disconnect", "a", 0], ["send", "a", 1, "gone"], rcv("a", 1), ["connect", "a", 0, mb2], ["send", "a", 1, "back"]]
+    if mb2 == "plain":
+        b += [rcv("a", 0) for _ in scn["post"]]
+    b += [["send", "a", 0, t] for t in scn["back"]]
+    return {"a": a, "b": b}
 
 
 def build_scripts(scn) -> Dict[str, List[Any]]:
@@ -190,11 +251,47 @@ def run(scn) -> Dict[str, Any]:
     socks: Dict[Tuple[str, str, int], Any] = {}
     old_socks: List[Any] = []  # closed socket objects stay alive until the end of the run (no finalizer in mid-run)
     ever_plain = set()
+    # what the harness knows for sure about each endpoint's socket (its own record, not the hub's): "open" from the moment its
+    # constructor has returned until its disconnect is about to start; everything else is "not known to be open"
+    ostate: Dict[Tuple[str, str, int], str] = {}
+    # header of the structured messages of this run: never used by an earlier run in this process (what one run's receivers do
+    # with their message objects must not reach into the next run: every failure is reproducible from its case alone)
+    hdr = "h" + hashlib.sha1(json.dumps(scn, sort_keys=True, default=str).encode()).hexdigest()[:8] + f"-{next(_RUN_NO)}"
+    cbcls = scn.get("cbcls", {})
+
+    def take(mobj):
+        """the receiver notes what it was handed and then uses the object as its own (it overwrites both fields)"""
+        h, pl = mobj.header, mobj.payload
+        mobj.header = "taken"
+        mobj.payload = "<overwritten by the receiver>"
+        if h != hdr:
+            raise Failure("structured:received-content-differs", case, f"a structured message was sent with header {hdr!r} but received with header {h!r} and payload {str(pl)[:60]!r} "
+                          "(the receiver had overwritten the fields of a message object it received earlier)")
+        return pl
 
     class LoggingStorageSocket(StorageThreadSocket):
         def recv_callback(self, msg):
             super().recv_callback(msg)
             log.append((self.app_name, "cb-recv", self.remote_app_name, self.id, _payload(msg)))
+
+    class InheritingSocket(LoggingStorageSocket):
+        """a callback socket whose recv_callback comes from an intermediate class"""
+
+        tag = "inherits"
+
+    class _CallbackMixin:
+        def recv_callback(self, msg):
+            self._storage.append(msg)
+            log.append((self.app_name, "cb-recv", self.remote_app_name, self.id, _payload(msg)))
+
+    class MixinSocket(_CallbackMixin, ThreadSocket):
+        """a callback socket whose recv_callback comes from a mixin"""
+
+        def __init__(self, app_name, remote_app_name, **kwargs):
+            self._storage = []
+            super().__init__(app_name, remote_app_name, use_callbacks=True, **kwargs)
+
+    cb_classes = {"own": LoggingStorageSocket, "inherited": InheritingSocket, "mixin": MixinSocket}
     channels: Dict[str, Any] = {}
     if scn["kind"] == "broadcast":
         from netqasm.sdk.classical_communication.thread_socket.broadcast_channel import ThreadBroadcastChannel
@@ -232,6 +329,8 @@ def run(scn) -> Dict[str, Any]:
         # a starts first and waits for its peer; b then connects with a time limit (possibly shorter than one poll interval, or 0):
         # a's socket is already open, so b's connect succeeds whatever the limit (sequential schedule only)
         scripts = {"a": [["connect", "b", 0, "plain"], ["recv", "b", 0, False]], "b": [["connect", "a", 0, "plain", scn["timeout"]], ["send", "a", 0, "hello"]]}
+    elif scn["kind"] == "peer-returns":
+        scripts = peer_returns_scripts(scn)
     elif scn["kind"] == "late-open-close":
         # a starts first and polls; b arrives, sends and closes (possibly all inside one of a's poll sleeps)
         scripts = {"a": [["connect", "b", 0, "plain"], ["recv", "b", 0, False]], "b": [["connect", "a", 0, "plain"], ["send", "a", 0, "hello"], ["disconnect", "a", 0]]}
@@ -263,7 +362,8 @@ def run(scn) -> Dict[str, Any]:
                         log.append((name, "bc-closed"))
                         continue
                     if k == "connect":
-                        cls = LoggingStorageSocket if op[3] == "cb" else ThreadSocket
+                        cls = cb_classes[cbcls.get(name, "own")] if op[3] == "cb" else ThreadSocket
+                        ostate[key] = "opening"
                         if key in socks:
                             old_socks.append(socks[key])
                         if op[3] == "plain":
@@ -274,6 +374,7 @@ def run(scn) -> Dict[str, Any]:
                         except TimeoutError:
                             log.append((name, "connect-timeout", op[1], op[2]))
                             return
+                        ostate[key] = "open"
                         log.append((name, "connected", op[1], op[2]))
                     elif k == "send":
                         socks[key].send(op[3])
@@ -282,15 +383,14 @@ def run(scn) -> Dict[str, Any]:
                         socks[key].send_silent(op[3])
                         log.append((name, "sent", op[1], op[2], op[3]))
                     elif k == "send_structured":
-                        socks[key].send_structured(StructuredMessage(header="h", payload=op[3]))
+                        socks[key].send_structured(StructuredMessage(header=hdr, payload=op[3]))
                         log.append((name, "sent", op[1], op[2], op[3]))
                     elif k == "recv":
                         kw = {"timeout": op[5]} if len(op) > 5 and op[5] is not None else {}
                         while True:
                             try:
                                 if op[3]:
-                                    m = socks[key].recv_structured(**kw)
-                                    m = m.payload
+                                    m = take(socks[key].recv_structured(**kw))
                                 elif len(op) > 4 and op[4]:
                                     m = _payload(socks[key].recv_silent(**kw))
                                 else:
@@ -305,7 +405,7 @@ def run(scn) -> Dict[str, Any]:
                         slept = sch.sleep_count.get(name, 0)
                         try:
                             if op[3]:
-                                m = socks[key].recv_structured(block=False).payload
+                                m = take(socks[key].recv_structured(block=False))
                             elif len(op) > 4 and op[4]:
                                 m = _payload(socks[key].recv_silent(block=False))
                             else:
@@ -317,8 +417,15 @@ def run(scn) -> Dict[str, Any]:
                             if sch.sleep_count.get(name, 0) != slept:
                                 log.append((name, "nb-blocked", op[1], op[2]))
                     elif k == "disconnect":
+                        ostate[key] = "closing"
                         socks[key].__del__()
+                        ostate[key] = "closed"
                         log.append((name, "disconnected", op[1], op[2]))
+                    elif k == "probe_connected":
+                        log.append((name, "connected?", op[1], op[2], bool(socks[key].connected)))
+                    elif k == "wait_lost":
+                        socks[key].wait()
+                        log.append((name, "wait-returned", op[1], op[2]))
                 except Stuck:
                     log.append((name, "stuck", k, op[1], op[2]))
                     return
@@ -326,6 +433,11 @@ def run(scn) -> Dict[str, Any]:
                     if k in ("recv", "recv_nb", "bc_recv"):
                         # only sending needs a connected peer; a receive reports emptiness (non-blocking) or waits
                         raise Failure(f"receive-raises:ConnectionError:{k}", case, f"endpoint {name}: {k} raised ConnectionError: {str(e)[:120]}")
+                    if k in ("send", "send_silent", "send_structured") and ostate.get(key) == "open" and ostate.get((op[1], name, op[2])) == "open":
+                        # both endpoints are open (each constructor has returned, neither disconnect has begun): they are connected
+                        hist = [(x[0], x[1]) for x in log if x[0] in (name, op[1]) and x[1] in ("connected", "disconnected", "conn_error", "connected?", "wait-returned")]
+                        raise Failure(f"send-refused:ConnectionError:both-endpoints-open:{scn['kind']}", case, f"endpoint {name}: {k} to {op[1]} on socket {op[2]} raised ConnectionError ({str(e)[:80]}) although both "
+                                      f"sockets are open; connects / disconnects / refused sends / looks at `connected` of the two endpoints so far: {hist}")
                     log.append((name, "conn_error", k, op[1], op[2]))
                 except json.JSONDecodeError:
                     log.append((name, "recv-garbled", op[1], op[2]))
@@ -387,6 +499,29 @@ def run(scn) -> Dict[str, Any]:
                 raise Failure("delivery:lost", case, f"b sent 'hello' before closing but a received {got}; log {log}")
             info["sent"] = 2 if sent_ok else 0
             return info
+        if scn["kind"] == "peer-returns":
+            n_sent = 0
+            for (src, dst, sid) in sorted({(x[0], x[2], x[3]) for x in log if x[1] == "sent"}):
+                msgs = [x[4] for x in log if x[1] == "sent" and (x[0], x[2], x[3]) == (src, dst, sid)]
+                n_sent += len(msgs)
+                r_all = [x[4] for x in log if x[1] in ("recv", "cb-recv") and (x[2], x[0], x[3]) == (src, dst, sid)]
+                queue_payload = [_payload(m) for m in hub._messages.get((dst, src, sid), [])]
+                if r_all + queue_payload != msgs:
+                    what = "lost" if len(r_all) + len(queue_payload) < len(msgs) else ("duplicated" if len(r_all) + len(queue_payload) > len(msgs) else "reordered")
+                    raise Failure(f"delivery:{what}:peer-returns", case, f"{src}->{dst} socket {sid}: sent {msgs}, received {r_all}, still queued {queue_payload}; gap action {scn['gap']}; log {[x[:4] for x in log]}")
+                dmode = {("a", 0): scn["mode_a"], ("b", 0): scn["mode_b2"]}.get((dst, sid), "plain")
+                if dmode == "cb" and queue_payload:
+                    # every message was sent while a callback socket of dst was open (b's first socket took what was sent to it
+                    # before it closed; nothing can be sent in the gap)
+                    raise Failure("callback-delivery:peer-returns" + ("" if cbcls.get(dst, "own") == "own" else ":" + cbcls[dst] + "-callback"), case, f"{src}->{dst} socket {sid}: {dst} only used callback sockets (class: {cbcls.get(dst, 'own')}) but {queue_payload} sits in the hub queue (sent {msgs})")
+            for x in log:
+                if x[1] == "stuck" and x[2] == "connect":
+                    raise Failure("connect-never-returns", case, f"endpoint {x[0]} never found its peer {x[3]} (socket {x[4]}) although the peer's socket was open; log {[y[:4] for y in log]}")
+                if x[1] == "stuck":
+                    raise Failure("delivery:lost:peer-returns", case, f"endpoint {x[0]} blocks forever in {x[2]} on socket {x[4]}; log {[y[:4] for y in log]}")
+            info["sent"] = n_sent
+            info["gap"] = scn["gap"]
+            return info
         # ---------------- oracle per direction and socket id
         sent: Dict[Tuple[str, str, int], List[str]] = {}
         got: Dict[Tuple[str, str, int], List[str]] = {}
@@ -440,7 +575,8 @@ def run(scn) -> Dict[str, Any]:
                     except Exception:
                         stor.append(m)
                 if stor != msgs:
-                    raise Failure("callback-delivery", case, f"{src}->{dst} socket {sid}: sent {msgs}, callback endpoint stored {stor}, stranded in the hub queue {queue_payload}")
+                    kind_cb = cbcls.get(dst, "own")
+                    raise Failure("callback-delivery" + ("" if kind_cb == "own" else f":{kind_cb}-callback"), case, f"{src}->{dst} socket {sid}: sent {msgs}, callback endpoint (recv_callback: {kind_cb}) stored {stor}, stranded in the hub queue {queue_payload}")
             else:
                 r = got.get((src, dst, sid), [])
                 if r + queue_payload != msgs:
@@ -492,7 +628,23 @@ def shard(ctx: Ctx) -> None:
             return
         nt = info["preemptions"] >= 1 and info.get("sent", 0) >= 2
         labels = [scn["kind"], f"preempt>={min(info['preemptions'] // 5 * 5, 20)}"]
+        if scn["kind"] == "peer-returns":
+            labels += ["gap:" + scn["gap"], f"peer-returns:{scn['mode_a']}/{scn['mode_b1']}->{scn['mode_b2']}"]
+            labels += sorted({"cb-class:" + scn["cbcls"][n] for n, md in (("a", scn["mode_a"]), ("b", scn["mode_b1"]), ("b", scn["mode_b2"])) if md == "cb"})
         if scn["kind"] == "plan":
+            labels += sorted({"cb-class:" + scn.get("cbcls", {}).get(n, "own") for c in scn["conns"] for n, md in c["mode"].items() if md == "cb"})
+            if not scn.get("reconnect"):
+                nb = {name for name, _pos in scn["extra_nb"]}
+                chan_struct: Dict[Any, bool] = {}
+                for m in scn["plan"]:
+                    kk = (m["src"], m["dst"], m["sid"])
+                    chan_struct[kk] = chan_struct.get(kk, True) and m["structured"]
+                modes_ = {(n, o, c["sid"]): c["mode"][n] for c in scn["conns"] for n, o in ((c["x"], c["y"]), (c["y"], c["x"]))}
+                objs = [m["msg"] for m in scn["plan"] if chan_struct[(m["src"], m["dst"], m["sid"])] and m["dst"] not in nb and modes_[(m["dst"], m["src"], m["sid"])] == "plain"]
+                if len(objs) > len(set(objs)):
+                    labels.append("equal-structured-messages-received-as-objects")
+                if objs:
+                    labels.append("received-structured-object-overwritten")
             labels += [f"endpoints:{len(scn['names'])}"] + sorted({"mode:" + m for c in scn["conns"] for m in c["mode"].values()})
             if any(m["structured"] for m in scn["plan"]):
                 labels.append("structured")
@@ -557,6 +709,67 @@ def shard(ctx: Ctx) -> None:
             except Failure as f:
                 ctx.fail(f)
     stt.exhaustive_domains["five fixed scripts x every single-preemption schedule"] = n_sys
+    # three more fixed scripts, same treatment: the same structured message three times (the receiver overwrites each object it
+    # gets), callback endpoints whose recv_callback is inherited / comes from a mixin
+    def smsg(k):
+        return {"src": "a", "dst": "b", "sid": 0, "msg": "dup", "structured": True, "recv": "block" if k else "nb-then-block"}
+
+    def pr(gap, mb2, post):
+        return {"kind": "peer-returns", "names": ["a", "b"], "mode_a": "plain", "mode_b1": "plain", "mode_b2": mb2, "cbcls": {"a": "own", "b": "inherited"},
+                "pre": ["p0"], "gap": gap, "post": post, "back": ["r0"]}
+
+    fixed_more = [
+        {"kind": "plan", "names": ["a", "b"], "extra_nb": [], "disconnect": {"a": False, "b": False}, "cbcls": {"a": "own", "b": "own"},
+         "conns": [{"x": "a", "y": "b", "sid": 0, "mode": {"a": "plain", "b": "plain"}}], "plan": [smsg(0), smsg(1), smsg(2)]},
+        {"kind": "plan", "names": ["a", "b"], "extra_nb": [], "disconnect": {"a": False, "b": False}, "cbcls": {"a": "own", "b": "inherited"},
+         "conns": [{"x": "a", "y": "b", "sid": 0, "mode": {"a": "plain", "b": "cb"}}], "plan": [plan("a", "b", 0), plan("a", "b", 1)]},
+        {"kind": "plan", "names": ["a", "b"], "extra_nb": [], "disconnect": {"a": True, "b": False}, "cbcls": {"a": "mixin", "b": "mixin"},
+         "conns": [{"x": "a", "y": "b", "sid": 0, "mode": {"a": "cb", "b": "cb"}}], "plan": [plan("a", "b", 0), plan("b", "a", 1), plan("a", "b", 2)]},
+    ]
+    n_sys2 = 0
+    for scn0 in fixed_more:
+        try:
+            base = run(dict(scn0, schedule=[]))
+        except Failure as f:
+            ctx.fail(f)
+            continue
+        nsteps = base["steps"] if not base.get("inconclusive") else 0
+        for pos in range(nsteps + 1):
+            for choice in (1, 2):
+                k += 1
+                if k % ctx.nshards != ctx.shard:
+                    continue
+                scn = dict(scn0, schedule=[0] * pos + [choice])
+                n_sys2 += 1
+                try:
+                    info = run(scn)
+                    if not info.get("inconclusive"):
+                        stt.case(scn, info["preemptions"] >= 1 and info.get("sent", 0) >= 2, ["single-preemption", "single-preemption:" + scn0["kind"] + (":gap-" + scn0["gap"] if "gap" in scn0 else "")])
+                    else:
+                        stt.rejected["inconclusive:" + info["inconclusive"].split(":")[0]] += 1
+                except Failure as f:
+                    ctx.fail(f)
+    stt.exhaustive_domains["three more fixed scripts (equal structured messages, inherited and mixin callbacks) x every single-preemption schedule"] = n_sys2
+    # every peer-returns history with one message before, two after and one back, sequential schedule: gap action x delivery modes
+    # x callback class of the returning peer
+    n_pr = 0
+    for gap in GAP_ACTIONS:
+        for ma, mb1, mb2 in itertools.product(["plain", "cb"], repeat=3):
+            for cbk in CB_CLASSES:
+                k += 1
+                if k % ctx.nshards != ctx.shard:
+                    continue
+                scn = dict(pr(gap, mb2, [["send", "q0"], ["send_structured", "q0"]]), mode_a=ma, mode_b1=mb1, cbcls={"a": cbk, "b": cbk}, schedule=[])
+                n_pr += 1
+                try:
+                    info = run(scn)
+                    if not info.get("inconclusive"):
+                        stt.case(scn, info.get("sent", 0) >= 2, ["peer-returns-sequential", "gap:" + gap])
+                    else:
+                        stt.rejected["inconclusive:" + info["inconclusive"].split(":")[0]] += 1
+                except Failure as f:
+                    ctx.fail(f)
+    stt.exhaustive_domains["peer-returns histories: gap action x delivery modes x callback class, sequential schedule"] = n_pr
     # ... and every short excursion (both tiers): at one position another thread runs for 1..10 statements, then the
     # interrupted thread goes on -- what it takes to land one operation between two lock sections of another
     n_exc = 0
